@@ -227,6 +227,7 @@ fn seq_spec(ctx: &Ctx, shards: usize) -> crate::harness::seq::SeqSpec {
             put_ttl(1, 3, 1000),
             put(2, 2),
             put_ttl(2, 1, 1500),
+            put_ttl(2, 2, 0),
             put(3, 4),
             del(1),
             del(2),
